@@ -685,12 +685,13 @@ def _run_case(mod, file, qualname, scenario):
            'result': _json(norm(result)) if not isinstance(result, object) or isinstance(result, (int, bytes, bytearray, str, list, tuple, type(None))) else repr(result),
            'exception': None if exc is None else '%s: %s' % (type(exc).__name__, str(exc)[:200])}
     failed = []
+    unevaluable = []        # clauses the native evaluator cannot compute: never evidence of a violation
 
     def chk(label, node, which='post'):
         try:
             ok = bool(E.ev(node, which))
         except Exception as e:
-            failed.append('%s: evaluation error %r' % (label, e))
+            unevaluable.append('%s: evaluation error %r' % (label, e))
             return
         if not ok:
             failed.append('%s: %s' % (label, ast.unparse(node)[:300]))
@@ -710,7 +711,7 @@ def _run_case(mod, file, qualname, scenario):
                         if E.ev(kw['when'], 'pre'):
                             failed.append('raises#%d:must-raise: %s held but the call returned normally' % (k, ast.unparse(kw['when'])))
                     except Exception as e:
-                        failed.append('raises#%d: evaluation error %r' % (k, e))
+                        unevaluable.append('raises#%d: evaluation error %r' % (k, e))
     else:
         matched = False
         if isinstance(exc, OpaqueRaised):
@@ -740,7 +741,8 @@ def _run_case(mod, file, qualname, scenario):
         if not matched:
             failed.append('no-unexpected-exception: %s: %s' % (type(exc).__name__, str(exc)[:200]))
     out['failed'] = failed
-    out['status'] = 'contract-violated' if failed else 'contract-holds'
+    out['unevaluable'] = unevaluable
+    out['status'] = 'contract-violated' if failed else ('contract-unevaluable' if unevaluable else 'contract-holds')
     return out
 
 
@@ -770,12 +772,117 @@ def cmd_replay(path):
     return 0 if res['status'] != 'contract-violated' else 1
 
 
+# ---- type-directed generator: the fallback when a sidecar has no gen_<name> for a function ----------------------------------
+def _literals(mod, fn):
+    """text constants the contract (and the helpers it uses) mentions: tags, attribute names and values worth trying"""
+    pool, seen = set(), set()
+
+    def scan(f):
+        if f in seen:
+            return
+        seen.add(f)
+        try:
+            tree = ast.parse(textwrap.dedent(inspect.getsource(f)))
+        except Exception:
+            return
+        for n in ast.walk(tree):
+            if isinstance(n, ast.Constant) and isinstance(n.value, str) and 0 < len(n.value) < 60 and '\n' not in n.value:
+                pool.add(n.value)
+            if isinstance(n, ast.Name):
+                g = getattr(mod, n.id, None)
+                if inspect.isfunction(g) and g.__module__ == mod.__name__ and not n.id.startswith('gen_'):
+                    scan(g)
+                elif isinstance(g, str) and 0 < len(g) < 80:
+                    pool.add(g)
+    scan(fn)
+    return sorted(pool)
+
+
+def _rand(ty, rng, pool, depth=0):
+    n = ty.name
+    text = lambda: rng.choice(pool + ['', 'x', '1', 'a@s.whatsapp.net', '49-1@g.us']) if pool else rng.choice(['', 'x', '1'])
+    if n in ('Int', 'Nat'):
+        return rng.choice([0, 1, 2, 3, 5, 100, 255, 256, 65536, -1] if n == 'Int' else [0, 1, 2, 3, 5, 100, 255, 256, 65536])
+    if n == 'Byte':
+        return rng.randrange(256)
+    if n == 'Bool':
+        return rng.random() < 0.5
+    if n in ('Bytes', 'ByteArray', 'ListByte'):
+        return [rng.randrange(256) for _ in range(rng.choice([0, 1, 2, 5, 17]))]
+    if n in ('ListInt', 'SeqInt', 'IntSeq'):
+        return [rng.choice([0, 1, 7, 255, 300]) for _ in range(rng.choice([0, 1, 3]))]
+    if n in ('Str', 'Latin1'):
+        return text()
+    if n in ('ListBytes', 'SeqBytes', 'SeqStr'):
+        return [[ord(c) for c in text()] for _ in range(rng.choice([0, 1, 3]))]
+    if n == 'NoneT':
+        return None
+    if n == 'Opt':
+        return None if rng.random() < 0.3 else _rand(ty.args[0], rng, pool, depth)
+    if n == 'Tup':
+        return [_rand(t, rng, pool, depth) for t in ty.args]
+    if n in ('Opaque', 'Callback'):
+        return {'$opaque': (ty.args[0] if ty.args else ('callback' if n == 'Callback' else 'obj'))}
+    if n in ('Value', 'Any'):
+        return rng.choice([None, 0, 1, text(), {'$opaque': ty.args[0] if ty.args else 'value'}])
+    if n == 'Obj':
+        cname = ty.args[0]
+        if cname == 'ProtocolTreeNode':
+            keys = [k for k in pool if k.isidentifier() or '-' in k or ':' in k][:40]
+            attrs = {k: text() for k in rng.sample(keys, min(len(keys), rng.randrange(0, 6)))} if keys else {}
+            kids = [] if depth >= 2 else [_rand(ty, rng, pool, depth + 1) for _ in range(rng.choice([0, 0, 1, 2]))]
+            data = None if kids or rng.random() < 0.6 else [rng.randrange(256) for _ in range(rng.choice([0, 1, 8]))]
+            return {'tag': rng.choice(pool) if pool and rng.random() < 0.8 else 'x', 'attributes': attrs, 'children': kids, 'data': data}
+        decl = lang.REGISTRY['fields'].get(cname, {})
+        if depth >= 3:
+            return {}
+        return {f: _rand(t, rng, pool, depth + 1) for f, t in decl.items() if not (f.startswith('__') and f.endswith('__'))}
+    if n in ('ListObj', 'TupleObj', 'SeqObj'):
+        return [{'$opaque': ty.args[0] if ty.args else 'item'} for _ in range(rng.choice([0, 1, 2, 5]))]
+    if n == 'DictStrObj':
+        return [[text(), {'$opaque': ty.args[0] if ty.args else 'value'}] for _ in range(rng.choice([0, 1, 3]))]
+    if n == 'DictStrStr':
+        return [[text(), text()] for _ in range(rng.choice([0, 1, 3]))]
+    raise ValueError('auto generator: no values for type %r' % (ty,))
+
+
+def auto_gen(mod, fn, rng, n):
+    """scenarios drawn from the parameter types and the text constants of the contract (a weak, generic stand-in: many draws fail
+    the precondition and are discarded; what remains is evaluated like any hand-written scenario)"""
+    params, clauses, tree = parse_contract(fn)
+    glob = vars(mod)
+    pool = _literals(mod, fn)
+    rets = {}
+    for reg in (lang.REGISTRY['opaques'], lang.REGISTRY['externs']):
+        for key, kw in reg.items():
+            if isinstance(kw, dict) and kw.get('returns') is not None:
+                name = kw.get('event') or (key[1].split('.')[-1] if isinstance(key, tuple) else key)
+                rets[name] = kw['returns']
+    for it in range(n):
+        inputs = {p: _rand(ty_of(ann, glob), rng, pool) for p, ann in params}
+        results = {}
+        for ev, ty in rets.items():
+            try:
+                results[ev] = [_rand(ty, rng, pool) for _ in range(4)]
+            except ValueError:
+                pass
+        sc = {'inputs': inputs, 'opaque_results': results, 'raises_at': {}}
+        if rets and rng.random() < 0.1:
+            sc['raises_at'] = {rng.choice(sorted(rets)): [0]}
+        yield sc
+
+
 def cmd_search(sidecar, file, qualname, n, seed, out):
     """Directed bounded search: the sidecar's generator gen_<name>(rng) yields scenarios."""
     mod = load_sidecar(os.path.join(HERE, sidecar))
     fn = lang.REGISTRY['contracts'][(file, qualname)]
     gen = getattr(mod, 'gen_' + fn.__name__, None)
     res = {'evaluations': 0, 'valid': 0, 'violations': [], 'distinct': 0, 'samples': []}
+    if gen is None and os.environ.get('PYVC_AUTOGEN') == '1':
+        # experimental, off by default: draws are often ill-typed (a registry value that is not a triple), so neither its passes nor
+        # its failures are used for a verdict
+        res['generator'] = 'type-directed (no gen_%s in %s)' % (fn.__name__, sidecar)
+        gen = lambda rng_, n_: auto_gen(mod, fn, rng_, n_)
     if gen is None:
         res['error'] = 'no generator gen_%s in %s' % (fn.__name__, sidecar)
     else:
@@ -783,8 +890,14 @@ def cmd_search(sidecar, file, qualname, n, seed, out):
         seen = set()
         for k, sc in enumerate(gen(rng, int(n))):
             res['evaluations'] += 1
-            r = run_case(mod, file, qualname, sc)
-            if r['status'] in ('precondition-false', 'precondition-error'):
+            try:
+                r = run_case(mod, file, qualname, sc)
+            except Exception as e:
+                res.setdefault('harness_errors', []).append(repr(e)[:200])
+                if len(res['harness_errors']) > 20:
+                    break
+                continue
+            if r['status'] in ('precondition-false', 'precondition-error', 'contract-unevaluable'):
                 continue
             res['valid'] += 1
             key = json.dumps(sc, sort_keys=True, default=str)
@@ -818,7 +931,7 @@ def cmd_searchall(sidecar, tier, seed, out):
             res['evaluations'] += 1
             sec['n'] += 1
             r = run_case(mod, file, qualname, sc)
-            if r['status'] in ('precondition-false', 'precondition-error'):
+            if r['status'] in ('precondition-false', 'precondition-error', 'contract-unevaluable'):
                 continue
             sec['valid'] += 1
             seen.add(json.dumps(sc, sort_keys=True, default=str))
